@@ -7,7 +7,7 @@
    Partial: every mutex section is an atomic step, SC memory (the Relaxed tracking flag included); a table
    operation is ONE step (no pause point inside: allocator shards, freed-page lists, striped write buffer are
    outside the model); commit/abort of the shared transaction are covered by C03's model. *)
-From Coq Require Import List NArith Relations.
+From Coq Require Import List NArith Relations Permutation.
 From RV Require Import Conc.Shared Conc.SharedP Conc.Sched Conc.CommitGap Conc.CommitGapP.
 Import ListNotations.
 Open Scope N_scope.
@@ -71,6 +71,111 @@ Example c16_nonvacuous_savepoint_first :
              s_tracking s = true /\ s_valid s = [101] /\ s_dirty s = true).
 Proof. split; eexists; vm_compute; repeat split. Qed.
 
+(* ---------------------------------------------------------------- the extended table phase (Conc/Shared.v):
+   table operations with their freed_pages sections (pages replaced through the per-table scratch list and MERGED under the
+   freed_pages mutex; pages pushed under the mutex by get_mut / entry / extract_if / multimap remove / MultimapValue::drop /
+   delete_table), non-dirtying holders of the tables / system_tables mutexes (list_tables, stats, a failing open_table,
+   list_persistent_savepoints), delete_table, persistent_savepoint's system_tables section.  `sinit_full pre tabs comm`:
+   `comm` = the committed pages of every table (and of the catalog). *)
+Theorem c16_per_table_independent_full : forall pre tabs comm log s tb,
+  srun log (sinit_full pre tabs comm) = Some s ->
+  table_map s tb = spec_table_from (table_map (sinit_full pre tabs comm) tb) tb log.
+Proof. exact per_table_independent_full. Qed.
+
+Theorem c16_no_shared_page_full : forall pre tabs comm log s,
+  srun log (sinit_full pre tabs comm) = Some s ->
+  (forall tb, NoDup (table_pages s tb)) /\
+  (forall tb tb' p, tb <> tb' -> In p (table_pages s tb) -> ~ In p (table_pages s tb')).
+Proof. exact no_shared_page_full. Qed.
+
+Theorem c16_savepoint_tracking_consistent_full : forall pre tabs comm log s,
+  srun log (sinit_full pre tabs comm) = Some s -> s_tracking s = false -> s_valid s = [] /\ s_dirty s = true.
+Proof. exact savepoint_tracking_consistent_full. Qed.
+
+(* freed_pages_exact: for EVERY executable log, when every call has returned (the state the commit finds) the
+   transaction-wide freed list is, as a multiset, exactly what the table operations of the log replaced (`repl_log`: a
+   function of the log and of the tables' committed pages): nothing lost, nothing twice *)
+Theorem c16_freed_pages_exact : forall pre tabs comm log s,
+  srun log (sinit_full pre tabs comm) = Some s -> s_at s = [] ->
+  Permutation (s_freed s) (repl_log (table_committed (sinit_full pre tabs comm)) log).
+Proof. exact freed_pages_exact. Qed.
+
+(* ... and at every moment: the list plus what operations in progress still hold (scratch lists, sections to run) *)
+Theorem c16_freed_pages_accounted : forall pre tabs comm log s,
+  srun log (sinit_full pre tabs comm) = Some s ->
+  Permutation (s_freed s ++ pending s) (repl_log (table_committed (sinit_full pre tabs comm)) log).
+Proof. exact freed_pages_accounted. Qed.
+
+(* savepoint eligibility is a function of the transaction's dirtiness only: the step that runs a request's dirty check
+   (under the tables mutex) refuses it iff a store of the dirty flag (open_table / delete_table, under the same mutex)
+   precedes it in the log -- for every log, whoever else held or waited for the mutex *)
+Theorem c16_savepoint_outcome_by_dirtiness : forall pre tabs comm log s t s',
+  srun log (sinit_full pre tabs comm) = Some s -> sstep t (LSec NEspLocked) s = Some s' ->
+  exists h, nget t (s_at s) = Some (SSavepoint h, Some NEspLocked) /\
+    if dirtied log
+    then nget t (s_at s') = None /\ s_results s' = (t, SSavepoint h, SErrDirty) :: s_results s
+    else nget t (s_at s') = Some (SSavepoint h, Some NRegisterRead) /\ s_results s' = s_results s.
+Proof. exact savepoint_outcome_by_dirtiness. Qed.
+
+(* no call is ever refused as dirty in a log without a store of the dirty flag *)
+Theorem c16_savepoint_refusal_needs_store : forall pre tabs comm log s t c,
+  srun log (sinit_full pre tabs comm) = Some s -> In (t, c, SErrDirty) (s_results s) -> dirtied log = true.
+Proof. exact savepoint_refusal_needs_store. Qed.
+
+(* a step that needs a held mutex does not happen: the thread sleeps, the state is unchanged *)
+Theorem c16_blocked_step_has_no_successor : forall t l s, sblocked t l s = true -> sstep t l s = None.
+Proof. exact sblocked_sound. Qed.
+
+(* ---------------------------------------------------------------- non-vacuity and the two seeded variants *)
+Definition fx_tabs : list (N * list (N * N)) := [(10, [(1, 11)]); (20, [(2, 22)])].
+Definition fx_comm : list (N * list N) := [(10, [101; 102; 103]); (20, [201; 202; 203])].
+Definition fx_open : list (nat * slabel) :=
+  [(0, LEnter (SOpen 10)); (0, LSec NSetDirty); (0, LSec NSetDirtyStored); (0, LSec NAnySavepoint);
+   (1, LEnter (SOpen 20)); (1, LSec NSetDirty); (1, LSec NSetDirtyStored); (1, LSec NAnySavepoint);
+   (0, LEnter (SOp 10 (EPut 1 99) [(false, 1%N); (false, 1%N)])); (0, LSec NFreedPre);
+   (1, LEnter (SOp 20 (EPut 5 55) [(true, 2%N)]))]%nat.
+
+(* thread 0 is inside get_mut's freed_pages section (root level) when thread 1's insert wants to merge its two replaced
+   pages: the step is blocked; after thread 0 has left the section it happens; in the end the list holds all four pages *)
+Example c16_freed_merge_nonvacuous :
+  (exists s1, srun fx_open (sinit_full [] fx_tabs fx_comm) = Some s1 /\ s_flock s1 = Some 0%nat /\
+              sblocked 1 (LSec NMerge) s1 = true /\ sstep 1 (LSec NMerge) s1 = None) /\
+  (exists s, srun (fx_open ++ [(0, LSec NFreedLocked); (1, LSec NMerge); (0, LSec NFreedPre); (0, LSec NFreedLocked);
+                               (0, LEnter (SClose 10)); (1, LEnter (SClose 20))]%nat) (sinit_full [] fx_tabs fx_comm) = Some s /\
+             s_at s = [] /\ s_freed s = [101; 201; 202; 102] /\ table_map s 20 = [(2, 22); (5, 55)] /\ table_map s 10 = [(1, 99)]).
+Proof. split; eexists; vm_compute; repeat split. Qed.
+
+(* seeded change "the merge gives up when the mutex is busy" inside the model: the same schedule, but thread 1's merge
+   runs while thread 0 holds the mutex (try_lock fails, the pages stay in the scratch list) and its table is closed: every
+   call has returned, and pages 201, 202 are in no list -- the theorem's conclusion fails *)
+Example c16_try_lock_merge_refuted :
+  exists log s, srun log (sinit_cfg true false [] fx_tabs fx_comm) = Some s /\ s_at s = [] /\
+    ~ Permutation (s_freed s) (repl_log (table_committed (sinit_cfg true false [] fx_tabs fx_comm)) log).
+Proof.
+  exists (fx_open ++ [(1, LSec NMerge); (1, LEnter (SClose 20)); (0, LSec NFreedLocked); (0, LSec NFreedPre); (0, LSec NFreedLocked);
+                      (0, LEnter (SClose 10))]%nat).
+  eexists. split; [vm_compute; reflexivity|]. split; [reflexivity|].
+  intro P. assert (I : In 201 [101; 102]).
+  { apply (Permutation_in 201 (Permutation_sym P)). vm_compute. auto. }
+  simpl in I. destruct I as [I|[I|[]]]; discriminate I.
+Qed.
+
+(* savepoint requests on a clean transaction while list_tables() is inside the tables section: in the code as it is the
+   request WAITS (blocked step) and then succeeds; with the seeded change "a busy tables mutex is taken for a dirty
+   transaction" it is refused although no store of the dirty flag is in the log *)
+Definition hold_log : list (nat * slabel) := [(0, LEnter (SHold 0)); (1, LEnter (SSavepoint 1))]%nat.
+Example c16_savepoint_waits_for_clean_holder :
+  (exists s1, srun hold_log (sinit_full [] [] []) = Some s1 /\ sblocked 1 (LSec NEsp) s1 = true /\ sstep 1 (LSec NEsp) s1 = None) /\
+  (exists s, srun (hold_log ++ [(0, LSec NHold); (1, LSec NEsp); (1, LSec NEspLocked); (1, LSec NRegisterRead); (1, LSec NAllocSavepoint);
+                                (1, LSec NEspUnlocked); (1, LSec NGetDataRoot); (1, LSec NGetVersion)]%nat) (sinit_full [] [] []) = Some s /\
+             s_results s = [(1%nat, SSavepoint 1, SOk); (0%nat, SHold 0, SOk)] /\ s_valid s = [101] /\ s_dirty s = false).
+Proof. split; eexists; vm_compute; repeat split. Qed.
+
+Example c16_try_lock_savepoint_refuted :
+  exists log s, srun log (sinit_cfg false true [] [] []) = Some s /\ dirtied log = false /\
+    In (1%nat, SSavepoint 1, SErrDirty) (s_results s).
+Proof. exists (hold_log ++ [(1, LSec NEsp)]%nat). eexists. split; [vm_compute; reflexivity|]. split; [reflexivity|]. left. reflexivity. Qed.
+
 (* ================================================================================================================
    The COMMIT of the shared transaction against Savepoint::drop / read transactions on other threads
    (model Conc/CommitGap.v over the generic interleaving semantics Conc/Sched.v; proofs Conc/CommitGapP.v).
@@ -104,6 +209,35 @@ Proof. exact epilogue_horizon_safe_prefix. Qed.
 Theorem c16_epilogue_horizon_safe_checked : forall s0 progs sched,
   wf_init_b s0 = true -> safe s0 (gfinal faithful sched progs s0).
 Proof. exact epilogue_horizon_safe_checked. Qed.
+
+(* ---------------------------------------------------------------- the chain over commits
+   `wf_start`: wf_init, but Savepoint::drop calls may be between their sections and reader threads may hold reads (every pin
+   still has one owner).  `gnext e n`: the state the NEXT transaction's commit starts from -- the end state e with the next
+   transaction's id and its own two records, pc = 0, the committer's locals and the observations cleared.  `next_ok e n`:
+   what the next transaction's table phase guarantees (pages unlinked once, allocated and committed before; fresh pages
+   were free). *)
+Theorem c16_epilogue_horizon_safe_start : forall s0 progs sched,
+  wf_start s0 -> safe s0 (gfinal faithful sched progs s0).
+Proof. exact epilogue_horizon_safe_start. Qed.
+
+(* from the invariant at the end of a commit (pc = 15: the committer has returned), whatever the schedule was *)
+Theorem c16_commit_reestablishes_start : forall s0 e n,
+  ginv s0 e -> g_pc e = 15 -> next_ok e n -> wf_start (gnext e n).
+Proof. exact commit_reestablishes_start. Qed.
+
+(* ... and wf_init itself when every thread of the run has finished (no drop between its sections, no read held) *)
+Theorem c16_commit_reestablishes_wf_init : forall s0 e n,
+  ginv s0 e -> g_pc e = 15 -> next_ok e n -> g_mid e = [] -> g_readers e = [] -> wf_init (gnext e n).
+Proof. exact commit_reestablishes_wf_init. Qed.
+
+(* any number of successive transactions, each committed under ANY schedule against any droppers / readers: every commit
+   starts from a state satisfying wf_start and every intermediate state of every commit is safe *)
+Theorem c16_commit_chain_safe : forall txs s0, wf_start s0 -> chain_ok s0 txs ->
+  Forall2 (fun (start : cst) (tx : txn) =>
+             wf_start start /\
+             forall m, safe start (gfinal faithful (firstn m (snd (fst tx))) (fst (fst tx)) start))
+          (chain_starts s0 txs) txs.
+Proof. exact commit_chain_safe. Qed.
 
 (* lock_order_acyclic: over the lock-acquisition chains of the modelled sections (CommitGap.lock_chains: 29 chains over
    9 mutexes, transcribed from the code: tables -> system_tables -> savepoint_state -> freed_pages -> allocated_pages ->
@@ -165,3 +299,19 @@ Proof.
   { apply (H ltac:(vm_compute; discriminate) 2 [10] 10); vm_compute; auto. }
   clear H. vm_compute in E. repeat (destruct E as [E|E]; [discriminate E|]). exact E.
 Qed.
+
+
+(* ------------------------------------------------------------------------------------------------
+   Tie to the code (Gen/Fns.v is regenerated from transactions.rs on every run by tools/gen_fns.py; see
+   design.d/GEN.md): the two horizon sections of the committer compute the expressions translated from
+   durable_commit and process_data_freed_pages_after_commit (the latter under the faithful clamp). *)
+From RV Require Import Gen.FnsLib Gen.Fns Gen.FnsHorizonP Gen.FnsCommitGapP.
+
+Theorem c16_code_durable_commit_free_until_is_model : forall cf s,
+  commit_step cf GOldestLive1 s = (set_h1 (durable_commit_free_until (oldest_live s) (g_txid s)) s, []).
+Proof. exact commitgap_horizon1_is_model. Qed.
+
+Theorem c16_code_epilogue_free_until_is_model : forall cf s, weak_clamp cf = false ->
+  match g_sph s with Some h => (h < 18446744073709551615)%N | None => True end ->
+  commit_step cf GOldestLive2 s = (set_eh (epilogue_free_until (oldest_live s) (g_txid s) (sph_u64 (g_sph s))) s, []).
+Proof. exact commitgap_horizon2_is_model. Qed.
